@@ -73,6 +73,32 @@ BASE_CFLAGS = ['-std=c++17', '-fno-vectorize', '-fno-slp-vectorize', '-ffp-contr
 UBSAN_FLAGS = ['-fsanitize=undefined,float-cast-overflow,float-divide-by-zero,integer-divide-by-zero',
                '-fno-sanitize=function,vptr,float-divide-by-zero,pointer-overflow', '-fsanitize-trap=all']
 
+class NativeCrash(RuntimeError): pass
+_IN_CHILD = [False]
+def forked(fn):
+    """run fn() in a forked child and return its (picklable) result; NativeCrash if the child is killed by a signal"""
+    import pickle, signal
+    r, w = os.pipe(); pid = os.fork()
+    if pid == 0:
+        try:
+            os.close(r); _IN_CHILD[0] = True
+            try: data = pickle.dumps(('ok', fn()))
+            except BaseException as e: data = pickle.dumps(('exc', '%s: %s' % (type(e).__name__, e)))
+            mv = memoryview(data)
+            while mv: n = os.write(w, mv[:65536]); mv = mv[n:]
+        finally: os._exit(0)
+    os.close(w); chunks = []
+    while True:
+        b = os.read(r, 1 << 20)
+        if not b: break
+        chunks.append(b)
+    os.close(r); _, st = os.waitpid(pid, 0)
+    if os.WIFSIGNALED(st): raise NativeCrash('native execution of the real code was killed by signal %d' % os.WTERMSIG(st))
+    if not chunks: raise NativeCrash('native execution child exited without a result (status %d)' % st)
+    kind, val = pickle.loads(b''.join(chunks))
+    if kind == 'exc': raise RuntimeError(val)
+    return val
+
 class Fn:
     def __init__(s, name, ins, outs, body): s.name = name; s.ins = ins; s.outs = outs; s.body = body
     def proto(s):
@@ -143,7 +169,13 @@ class Unit:
             s._lib[key] = ctypes.CDLL(so)
         return s._lib[key]
     def call_native(s, fname, in_vals, cxx='g++', opt='-O2'):
-        """in_vals: list (per input array) of lists of ints (bit patterns). returns list of lists of ints (bit patterns)."""
+        """in_vals: list (per input array) of lists of ints (bit patterns). returns list of lists of ints (bit patterns).
+        The real code runs in a forked child (unless we already are in one): a changed tree may crash natively (out-of-bounds write, misaligned SIMD store);
+        the worker must survive that and report it (NativeCrash) instead of dying."""
+        s.native(cxx, opt)
+        if not _IN_CHILD[0]: return forked(lambda: s._call_native(fname, in_vals, cxx, opt))
+        return s._call_native(fname, in_vals, cxx, opt)
+    def _call_native(s, fname, in_vals, cxx='g++', opt='-O2'):
         fn = s.fns[fname]; lib = s.native(cxx, opt); f = getattr(lib, 'w_' + fname)
         bufs = []
         for (c, n), vals in zip(fn.ins, in_vals):
@@ -309,6 +341,16 @@ def eval_term(t, subst):
     return r
 
 def validate_translation(res, rnd, k=6, pre=None):
+    if _IN_CHILD[0]: return _validate_translation(res, rnd, k, pre)
+    try: res.unit.native()
+    except Exception: pass
+    st = rnd.getstate()
+    try: out, st2 = forked(lambda: (_validate_translation(res, rnd, k, pre), rnd.getstate()))
+    except NativeCrash as e:
+        rnd.setstate(st); rnd.random()
+        return 0, [{'fn': res.fn.name, 'native_crash': str(e)}]
+    rnd.setstate(st2); return out
+def _validate_translation(res, rnd, k=6, pre=None):
     """Serval-style: push concrete inputs through the native function and through the symbolic term.
     Returns (n_compared, mismatches[list]).  Only bit/fp mode.  Outputs that do not reduce to a value (UF libm) are skipped."""
     fn = res.fn; unit = res.unit; n_cmp = 0; bad = []
@@ -550,8 +592,10 @@ class Session:
             rec['status'] = 'counterexample'
             if replay is not None:
                 try: verdict, info = replay(m)
+                except NativeCrash as e:       # the real code crashed on the solver's counterexample inputs: the defect is observable natively
+                    verdict, info = 'reproduced', {'native_crash': str(e), 'obligation': name, 'property': s.pid, 'pin_name': name}
                 except Exception as e:
-                    verdict, info = 'replay-error', {'error': traceback.format_exc()[-1500:]}
+                    verdict, info = ('reproduced', {'native_crash': str(e), 'obligation': name, 'property': s.pid, 'pin_name': name}) if 'killed by signal' in str(e) else ('replay-error', {'error': traceback.format_exc()[-1500:]})
                 rec['replay'] = verdict; rec['replay_info'] = info
                 if verdict != 'reproduced' and rgoal is not None:
                     # rounding-erased counterexamples found by nlsat often violate the atom by 1e-9 at huge / tiny inputs and drown in the float replay:
@@ -580,7 +624,7 @@ class Session:
 
     # -- the main entry: check a function of the real code against a spec, with replay and known-findings handling
     def check_fn(s, unit, fname, spec, pre=None, *, mode='fp', unwind=16, timeout=None, solver='z3', name=None, bounds='',
-                 validate=None, side=True, known=(), witness=True, mutant=None, ins=None, ubsan=False, opt='-O1', extra_hyps=None, mandatory=True, ex=None, assume_asserts=False):
+                 validate=None, side=True, known=(), witness=True, mutant=None, ins=None, ubsan=False, opt='-O1', extra_hyps=None, mandatory=True, ex=None, assume_asserts=False, split_side=False):
         """spec(ins, outs) -> Bool | [(label, Bool)] ; pre(ins) -> Bool | [Bool]
         side=True: also discharge the executor's own obligations (unwinding, traps, UB, domain) under pre.
         """
@@ -634,7 +678,7 @@ class Session:
             for kind, cond, d in res.obligations:
                 if assume_asserts and kind == 'trap' and '__assert_fail' in d: continue
                 if ubsan and kind == 'unreachable': continue      # clang emits 'unreachable' after every llvm.ubsantrap (already an obligation); genuine unreachables are instrumented as traps
-                groups.setdefault((kind, d), []).append(cond)
+                groups.setdefault((kind, d) if not split_side else (kind, d + '#%d' % len(groups)), []).append(cond)      # split_side: one obligation per site (a disjunction of many remainder-heavy sites is fragile)
             for (kind, d), conds in groups.items():
                 if kind == 'oob' and not known and mode != 'real':      # index / offset obligations: first with every floating-point atom abstracted to a fresh constant (sound over-approximation)
                     at, nsub = abstract_fp(list(hyps) + [z3.Or(*conds)])
